@@ -83,6 +83,15 @@ func limitMemory() {
 	})
 }
 
+func deepLimits() {
+	debug.SetMaxStack(1 << 30)
+	var rl syscall.Rlimit
+	if err := syscall.Getrlimit(syscall.RLIMIT_AS, &rl); err == nil && rl.Max >= 6<<30 && rl.Cur >= 6<<30 {
+		rl.Cur = 6 << 30
+		_ = syscall.Setrlimit(syscall.RLIMIT_AS, &rl)
+	}
+}
+
 // rc is the run context handed to the family bodies. It embeds the engine's
 // Run; in a child process every accounting call is also streamed to the
 // parent, which replays it into its own Run.
@@ -192,8 +201,15 @@ func supervised(body func(r *rc)) func(r *engine.Run) {
 	return func(r *engine.Run) {
 		switch {
 		case inChild():
-			limitMemory()
-			debug.SetMaxStack(childMaxStack)
+			if r.Family() == "deep-source" {
+				// Deeply nested source text: keep Go's default 1 GB maximum stack (a
+				// death must be one a default embedding would suffer too) and leave
+				// room for it in the address space.
+				deepLimits()
+			} else {
+				limitMemory()
+				debug.SetMaxStack(childMaxStack)
+			}
 			// The bufio.Writer keeps the real stdout descriptor; the family
 			// points os.Stdout at /dev/null afterwards (console.log).
 			c := &rc{Run: r, out: bufio.NewWriterSize(os.Stdout, 64<<10)}
@@ -438,6 +454,10 @@ func parseKeyAux(family, key string) map[string]string {
 	case family == "bridge":
 		if len(f) == 3 {
 			a["bridged"], a["op"], a["name"] = f[0], f[1], f[2]
+		}
+	case family == "deep-source":
+		if len(f) == 4 {
+			a["group"], a["construct"], a["depth"], a["closed"], a["route"] = f[0], f[0], f[1], f[2], f[3]
 		}
 	case family == "walk-mutation":
 		if len(f) == 5 {
